@@ -104,9 +104,38 @@ def r4(run):
                "the 200 response is produced only on the Ok edge of insert_frame", reason="import-acknowledged-without-store")
 
 
+def r5(run):
+    """Import must not evict or publish: a head-GC request issued while importing an OLD head:N frame would remove frames the source
+    store still holds (the imported frame is not the newest of its topic), and depends on import order."""
+    facts = run.facts
+    seen, todo = set(), [C.body_or_fail(run, C.INSERT_FRAME)]
+    ib = import_body(run)
+    if ib is not None:
+        todo.append(ib)
+    bad = []
+    while todo:
+        x = todo.pop()
+        if x.def_ in seen:
+            continue
+        seen.add(x.def_)
+        run.touch(x)
+        for c in x.calls():
+            if c.bb not in x.live_blocks():
+                continue
+            if (c.fn == C.UNBOUNDED_SEND and "xs::store::GCTask" in c.fnx) or (c.fn == C.BROADCAST_SEND and C.frame_typed(c)) or c.fn == C.REMOVE:
+                bad.append("%s @%s" % (c.fn.split("::")[-1], c.sp))
+            if c.local and c.fn != C.GET:
+                cb = facts.body(c.fn)
+                if cb is not None and not cb.def_.startswith("xs::api::response_"):
+                    todo.append(cb)
+    run.ob("%s|no-gc-no-broadcast" % IMPORT, not bad, "<import path>", "nothing on the import path (handle_import -> insert_frame and callees) queues a GC task, removes frames or broadcasts: %s" % bad,
+           reason="import-evicts-or-publishes")
+
+
 RULES = [
     ("R-C20-1", "import stores the deserialised frame as is: no field rewrite, no new id", r1),
     ("R-C20-2", "insert_frame's keys and value are functions of the frame alone (idempotent re-import, position by id)", r2),
     ("R-C20-3", "the registry follows stored xs.context frames on the import path too (shared with R-C07-5)", c07.r5),
+    ("R-C20-5", "import neither queues GC work, removes frames nor broadcasts (an imported head:N frame is not the newest of its topic)", r5),
     ("R-C20-4", "a frame that cannot be stored consistently is rejected whole: NUL topic before the batch, ephemeral before the store, 200 only after it", r4),
 ]
